@@ -417,7 +417,14 @@ func runFED10(r *core.Run) {
 		var rc any
 		_ = json.Unmarshal([]byte(canonValue(recon)), &rc)
 		if !isNullingOrMissing(rc, f0) {
-			r.Fail(prop, "reconstruction", "faults-nulling"+e.deferShape(op.Query), "under faults the delivered data is not a nulling of the fault-free data\n%sreconstructed: %s\nfault-free:    %s", ctxMsg, canonValue(recon), twin.data)
+			shape := e.deferShape(op.Query)
+			if shape == "" && strings.Count(op.Query, "@defer") >= 2 && extraKeysOnly(rc, f0) {
+				// every delivered value occurs in the fault-free data, but some keys sit below another
+				// parent: the payload of one of several defers was announced with a wrong path (known
+				// finding pending-path-includes-first-item-subpath, here without its fault-free twin)
+				shape = "-misplaced-payload-with-several-defers"
+			}
+			r.Fail(prop, "reconstruction", "faults-nulling"+shape, "under faults the delivered data is not a nulling of the fault-free data\n%sreconstructed: %s\nfault-free:    %s", ctxMsg, canonValue(recon), twin.data)
 		}
 	}
 	cancel()
@@ -677,4 +684,38 @@ func fed10AbstractMode(r *core.Run) int {
 		return 2
 	}
 	return 0
+}
+
+
+// extraKeysOnly: f is the fault-free value f0 with subtrees nulled or missing, except that objects of
+// f may carry additional keys (payloads merged at a wrong place); values under keys both have agree.
+func extraKeysOnly(f, f0 any) bool {
+	if f == nil {
+		return true
+	}
+	switch fv := f.(type) {
+	case map[string]any:
+		m0, ok := f0.(map[string]any)
+		if !ok {
+			return false
+		}
+		for k, v := range fv {
+			if v0, ok := m0[k]; ok && !extraKeysOnly(v, v0) {
+				return false
+			}
+		}
+		return true
+	case []any:
+		l0, ok := f0.([]any)
+		if !ok || len(l0) != len(fv) {
+			return false
+		}
+		for i, v := range fv {
+			if !extraKeysOnly(v, l0[i]) {
+				return false
+			}
+		}
+		return true
+	}
+	return canonValue(f) == canonValue(f0)
 }
